@@ -163,6 +163,7 @@ type Exec struct {
 	typeTags       map[string]int
 	curFrame       *Frame
 	usesSz         bool
+	activeChild *Builder
 	callCount      map[string]int
 	sortCount      int
 	rangeEntry     map[*ssa.Range]Term
@@ -725,6 +726,13 @@ func (x *Exec) fail(format string, args ...interface{}) {
 	panic(unsupported(format, args...))
 }
 
+func keyOf(ld *Loader, fn *ssa.Function) string {
+	if sp, ok := ld.wrapperPkg[fn]; ok {
+		return sp.Pkg.Path() + "::" + fn.RelString(sp.Pkg)
+	}
+	return relKey(fn)
+}
+
 func relKey(fn *ssa.Function) string {
 	if fn.Pkg == nil {
 		// synthetic wrappers etc.
@@ -738,9 +746,13 @@ func relKey(fn *ssa.Function) string {
 
 // VerifyFunction generates the obligations of fn against its contract.
 func VerifyFunction(ld *Loader, db *ContractDB, fn *ssa.Function, con *Contract) (x *Exec, err error) {
-	x = &Exec{prog: ld.prog, pkg: fn.Pkg, fn: fn, b: NewBuilder(), db: db, ld: ld, con: con, cands: NewCands(),
+	pkgOf := fn.Pkg
+	if pkgOf == nil {
+		pkgOf = ld.wrapperPkg[fn]
+	}
+	x = &Exec{prog: ld.prog, pkg: pkgOf, fn: fn, b: NewBuilder(), db: db, ld: ld, con: con, cands: NewCands(),
 		initHeaps: map[string]Term{}, counters: map[string]int{}, assumptions: map[string]bool{}, params: map[string]TV{},
-		fnKey: relKey(fn), uninterpApps: map[string][][]TV{}, typeTags: map[string]int{}}
+		fnKey: keyOf(ld, fn), uninterpApps: map[string][][]TV{}, typeTags: map[string]int{}}
 	x.tm = &TypeMap{b: x.b}
 	x.cands.mark = x.b.Mark
 	x.cands.symf = func(arr string, out map[string]bool) { x.symbolsOf(arr, out, 3) }
@@ -773,6 +785,9 @@ func VerifyFunction(ld *Loader, db *ContractDB, fn *ssa.Function, con *Contract)
 		x.b.Assert(x.typeFact(t, p.Type(), alloc0))
 		ty := p.Type()
 		x.params[p.Name()] = TV{t, ty}
+		if fn.Signature.Recv() != nil && p == fn.Params[0] {
+			x.params["self"] = TV{t, ty} // the receiver, whatever it is called (wrappers of promoted methods)
+		}
 		if sig, ok := p.Type().Underlying().(*types.Signature); ok {
 			for k := 0; k < sig.Results().Len(); k++ {
 				ct := x.b.FreshNamed(fmt.Sprintf("cb_%s_%d", p.Name(), k), x.tm.SortOf(sig.Results().At(k).Type()))
